@@ -698,11 +698,22 @@ class Context:
                 x = float(digits)
                 return int(x) if x != 0 and abs(x) <= 2**53 else x
 
+            def join_pairs(value):
+                # a surrogate pair spelled half raw, half as an escape is one character
+                if isinstance(value, str):
+                    raw = value.encode("utf-16-le", "surrogatepass")
+                    return raw.decode("utf-16-le", "surrogatepass")
+                if isinstance(value, list):
+                    return [join_pairs(v) for v in value]
+                if isinstance(value, dict):
+                    return {join_pairs(k): join_pairs(v) for k, v in value.items()}
+                return value
+
             try:
                 py_value = json.loads(
                     text, parse_constant=reject_constant, parse_int=parse_int
                 )
-                return ctx._to_js(py_value)
+                return ctx._to_js(join_pairs(py_value))
             except json.JSONDecodeError as e:
                 from .errors import JSSyntaxError
 
